@@ -1,4 +1,5 @@
 import NasVerif.Props.Codec
+import NasVerif.Codec.Alloc
 /-! # C01 — decoding arbitrary bytes never panics, hangs or over-allocates -/
 namespace NasVerif.Props.C01
 open NasVerif NasVerif.Codec NasVerif.Props.Codec
@@ -28,6 +29,22 @@ theorem loop_terminates (name : String) (e : MsgEntry) (_h : findMsg Model.top.m
     (fuel : Nat) (bs : Bytes) (s : Slots) (hf : bs.length ≤ fuel) :
     decLoop e.dec.opt fuel bs s = decLoop e.dec.opt bs.length bs s :=
   decLoop_fuel _ _ _ _ hf
+
+/-- on the tables regenerated on this run: no optional element's struct is larger than 47 octets (`go/types` sizes, amd64) -/
+theorem opt_struct_sizes : ∀ e ∈ Model.top.msgs, maxOptSize e.dec ≤ 47 := by decide
+
+/-- allocation: for each of the 45 decoders and every input, the octets requested while decoding — every `make` of `SetLen`
+(done after the length guard and before the content is read, so also the one that precedes a truncation error) and the struct
+of every optional element met — are at most 48 · |input| plus one maximum-size element (65 535 octets) -/
+theorem decode_alloc_bound (name : String) (e : MsgEntry) (h : findMsg Model.top.msgs name = some e) (bs : Bytes) :
+    allocDecode e.dec bs ≤ 48 * bs.length + 65535 := by
+  have h1 := allocDecode_le e.dec bs
+  have h2 := opt_struct_sizes e (findMsg_mem _ _ _ h).1
+  have : (maxOptSize e.dec + 1) * bs.length ≤ 48 * bs.length := Nat.mul_le_mul_right _ (by omega)
+  omega
+
+/-- non-vacuity of the bound's second term: a declared 65 535-octet element with nothing behind it does request 64 KiB -/
+example : allocDecode Gen.dec_DLNASTransport [0x7e, 0x00, 0x68, 0x01, 0xff, 0xff] = 65535 := by decide
 
 /-- non-vacuity: a real table and a real input reach the loop and an optional element -/
 example : decode Gen.dec_RegistrationReject [0x7e, 0x00, 0x44, 0x01, 0x16, 0x01, 0xaa]
